@@ -395,7 +395,7 @@ def subprocess_summary(mon, rng, case, which="command_line"):
         # the formatter's outfile may be named '-' (standard output, the default spelled out)
         out_spelling = rng.choice([[], [], ["-o", "-"], ["--outfile=-"]])
         mon.seen("formatter_outfile", "dash_for_stdout" if out_spelling else "not_given")
-        res = proj.run(case["args"] + extra + ["-f", "progress"] + out_spelling)
+        res = proj.run(case["args"] + extra + ["-f", "progress"] + out_spelling, environment=RB.pick_environment(rng, mon))
     finally:
         proj.close()
     if res.get("timeout"):
